@@ -720,12 +720,20 @@ func newParseOptions(b []byte) (NewOptions, error) {
 				options.FirstPrefix = options.Prefixes[0].Prefix
 			}
 		case optRouteInformation:
-			if err := options.RouteInformation.unmarshal(b[i : i+l]); err != nil {
+			// decode into a temporary: an ignored option must not leave half of its fields behind
+			var ri RouteInformation
+			if err := ri.unmarshal(b[i : i+l]); err != nil {
 				Logger.Msg("ignore invalid route information option").Error(err).ByteArray("options", b).Write()
+			} else {
+				options.RouteInformation = ri
 			}
 		case optRDNSS:
-			if err := options.RDNSS.unmarshal(b[i : i+l]); err != nil {
+			var rdnss RecursiveDNSServer
+			if err := rdnss.unmarshal(b[i : i+l]); err != nil {
 				Logger.Msg("ignore invalid RDNSS option").Error(err).ByteArray("options", b).Write()
+			} else {
+				options.RDNSS.Lifetime = rdnss.Lifetime
+				options.RDNSS.Servers = append(options.RDNSS.Servers, rdnss.Servers...)
 			}
 		case optDNSSL:
 			if err := options.DNSSearchList.unmarshal(b[i : i+l]); err != nil {
